@@ -2,7 +2,7 @@
    This file contains only the property theorems: each is closed by [exact] of a lemma proved
    elsewhere, its statement is pinned by [Check], and its axioms are printed by the audit. *)
 From Coq Require Import List.
-From TS Require Import Base.F32 Model.Rect Model.PathBuilder Model.Conic Proofs.PathBuilderStruct.
+From TS Require Import Base.F32 Model.Rect Model.PathBuilder Model.Conic Model.Transform Model.PathOps Proofs.PathBuilderStruct Proofs.RectPoints.
 Import ListNotations.
 
 (* Every builder call sequence (any arguments, any conic oracle) followed by finish yields a
@@ -15,6 +15,37 @@ Proof. intros cq fp ops p. exact (finish_struct_wf fp _ p (run_inv cq ops)). Qed
 Check C14_finish_struct_wf :
   forall cq fp ops p,
     finish_gen fp (run cq push_path ops) = Some p -> StructWF (pverbs p) (ppoints p).
+
+(* ... all points are finite and the stored bounds are exactly the bounding box of the points
+   (minimum / maximum as real numbers, attained by a point).  Bit-exact float model of
+   Rect::from_points; uses Flocq's B2R, hence the standard library's real-number axioms. *)
+Theorem C14_finish_finite_and_bounds :
+  forall b p, finish b = Some p ->
+    Forall finite_pt (ppoints p) /\ BBox (pbounds p) (ppoints p).
+Proof. exact finish_finite_bounds. Qed.
+Check C14_finish_finite_and_bounds :
+  forall b p, finish b = Some p ->
+    Forall finite_pt (ppoints p) /\ BBox (pbounds p) (ppoints p).
+
+(* PathBuilder::from_rect: same guarantees for a valid Rect *)
+Theorem C14_from_rect_wf :
+  forall l t r b rc, from_ltrb l t r b = Some rc ->
+    StructWF (pverbs (path_from_rect rc)) (ppoints (path_from_rect rc)) /\
+    Forall finite_pt (ppoints (path_from_rect rc)) /\ BBox (pbounds (path_from_rect rc)) (ppoints (path_from_rect rc)).
+Proof. exact from_rect_wf. Qed.
+
+(* Path::transform preserves all guarantees (any matrix, incl. non-finite entries: then None) *)
+Theorem C14_transform_wf :
+  forall t p p',
+  StructWF (pverbs p) (ppoints p) ->
+  Forall finite_pt (ppoints p) -> BBox (pbounds p) (ppoints p) ->
+  path_transform t p = Some p' ->
+  StructWF (pverbs p') (ppoints p') /\ Forall finite_pt (ppoints p') /\ BBox (pbounds p') (ppoints p').
+Proof. exact path_transform_wf. Qed.
+
+(* Path::clear + rebuild behaves like a new builder *)
+Theorem C14_path_clear_is_new : forall p, path_clear p = new_builder.
+Proof. exact path_clear_is_new. Qed.
 
 (* segments() replays the verbs and never indexes out of range *)
 Theorem C14_segments_replays_verbs :
